@@ -111,13 +111,17 @@ def line_text(row: dict, sp: int) -> str:
 def render(skel: dict, lines: list[dict]) -> str:
     """Physical lines (records of tla/Layout!Render) -> script text."""
     out = []
-    for ln in lines:
+    for n, ln in enumerate(lines):
         ind = indent_text(ln["ind"])
         if ln["t"] == "stmt":
             row = skel["lines"][ln["ln"] - 1]
-            out.append(ind + line_text(row, ln["sp"]) + (TRAILING_COMMENT if ln["tc"] else "") + (TRAILING_WS if ln["tw"] else ""))
+            # the blank run before a trailing comment / at the end of a line is blanks or a tab; a comment may end in a backslash
+            # (it is still a comment: the next line is not its continuation)
+            tc = (TRAILING_COMMENT, "\t# note", "  # path C:\\tmp\\", " #")[n % 4] if ln["tc"] else ""
+            tw = (TRAILING_WS, "\t", " \t ")[n % 3] if ln["tw"] else ""
+            out.append(ind + line_text(row, ln["sp"]) + tc + tw)
         elif ln["t"] == "comment":
-            out.append(ind + COMMENT_TEXT)
+            out.append(ind + (COMMENT_TEXT, "# ends with a backslash \\", "#\ttabbed\tcomment", "#")[n % 4])
         else:                                   # blank / whitespace-only
             out.append(ind)
     return "\n".join(out) + "\n"
